@@ -91,6 +91,8 @@ def gen_params(ctx):
         out.append(p)
     for k in range(3 if ctx.quick else 30):  # matching sections across splices, tuples in any order
         out.append(calib.random_params(rng, False, quick=True, nta=int(rng.integers(1, 3)), nmatch=2, nx=int(rng.integers(20, 28)), noise=0.01, nt=int(rng.integers(1, 3))))
+    for k in range(2 if ctx.quick else 20):  # a splice exactly on a reference location
+        out.append(calib.random_params(rng, False, quick=True, nta=int(rng.integers(1, 3)), nmatch=0, nx=int(rng.integers(16, 24)), noise=0.01, nt=int(rng.integers(1, 3)), ta_on_ref=True))
     # scale family: the same construction from 10 m to 10 km
     base = calib.random_params(rng, False, quick=True, nmatch=0, noise=0.01, nta=0, nt=1)
     for span in ([10.0, 1000.0, 10000.0] if ctx.quick else [10.0, 100.0, 1000.0, 3000.0, 10000.0]):
